@@ -30,7 +30,8 @@ ASSUMPTIONS = ["expat and defusedxml internals are trusted (the model is the dec
                "the first entity event", "for parsed documents the content answer of the model is the construction truth (content is C18's model)"]
 TIMEOUT_CASE = 20.0
 
-VARIANTS = ["plain", "comment_tag", "comment_doctype_word", "pi_tag", "bom", "newlines", "bytes", "bom_bytes", "comment_tag_bytes"]
+VARIANTS = ["plain", "comment_tag", "comment_doctype_word", "pi_tag", "bom", "newlines", "bytes", "bom_bytes", "comment_tag_bytes",
+            "utf16le_bytes", "utf16be_bytes"]
 
 
 def apply_variant(xml: str, variant: str):
@@ -48,6 +49,10 @@ def apply_variant(xml: str, variant: str):
         xml = xml[:at] + junk[v] + xml[at:]
     if v in ("bom",):
         xml = "﻿" + xml
+    if variant in ("utf16le_bytes", "utf16be_bytes"):
+        # a binary handle whose content is UTF-16 with a byte order mark (the declaration must not name another encoding)
+        xml = re.sub(r"^(<\?xml[^>]*?)\s+encoding=(\"[^\"]*\"|'[^']*')", r"\1", xml)
+        return (b"\xff\xfe" + xml.encode("utf-16-le")) if variant == "utf16le_bytes" else (b"\xfe\xff" + xml.encode("utf-16-be"))
     if variant in ("bytes", "bom_bytes", "comment_tag_bytes"):
         data = xml.encode("utf-8")
         return data
@@ -99,11 +104,11 @@ def generate(seed, tier):
         benign = gen_configs.hostile_cases(rng, benign=True)
         for hc in hostile + benign[:: (3 if tier == "quick" else 1)]:
             vs = ["plain"] + rng.sample(VARIANTS[1:], 3 if tier == "quick" else 6)
-            if hc["expect"] == "refuse" and hc["kind"].startswith(("billion_laughs_8", "ext_general_file", "ext_param_http", "declared_unused")):
+            if hc["expect"] == "refuse" and hc["kind"].startswith(("billion_laughs_8", "billion_laughs_3", "ext_general_file", "ext_param_http", "declared_unused")):
                 vs = list(VARIANTS)
             for v in vs:
                 if hc["entry"] == "hdd_descriptor" and v.endswith("bytes") and v != "bom_bytes":
-                    continue          # the descriptor is read from a path: one bytes variant (BOM) is enough
+                    continue          # the descriptor is read from a path as text: one bytes variant (UTF-8 BOM) is enough
                 cases.append({"id": f"{rd}-{hc['name']}-{v}-{len(cases)}", "recipe": {"entry": hc["entry"], "kind": hc["kind"], "seed": hc["seed"],
                                                                                    "benign": hc["kind"].startswith("stripped_"), "variant": v},
                               "queries": ["parse"]})
